@@ -23,40 +23,78 @@ def tag : JVal → Bytes
   | .bool false => ascii "f"
   | .null => ascii "z"
 
-/-- the observables of one JSON text: the text, validity (RFC 8259 parser of the spec), members -/
+/-- the observables of one JSON text: the text, validity (RFC 8259 parser of the spec), whether it is
+well-formed UTF-8, and the members – of the text itself, or, when it is not UTF-8, of the text with
+U+FFFD substituted (`sanitize`), which is what `encoding/json` decodes -/
 def describe (out : Bytes) : String :=
   match parseObj out with
-  | none => s!"ok {Hex.enc out} v=0 m=x"
+  | none => s!"ok {Hex.enc out} v=0 u=x m=x"
   | some ms =>
-    if !validUtf8 out then s!"ok {Hex.enc out} v=1 m=nonutf8"
-    else s!"ok {Hex.enc out} v=1 m={hexList (ms.flatMap fun p => [p.1, tag p.2])}"
+    if validUtf8 out then s!"ok {Hex.enc out} v=1 u=1 m={hexList (ms.flatMap fun p => [p.1, tag p.2])}"
+    else
+      match parseObj (sanitize out) with
+      | none => s!"ok {Hex.enc out} v=1 u=0 m=x"
+      | some ms' => s!"ok {Hex.enc out} v=1 u=0 m={hexList (ms'.flatMap fun p => [p.1, tag p.2])}"
 
-def big : Int := 4611686018427387904
+/-- a name table as text: entries sorted by name -/
+def showTable (t : List (Bytes × Int)) : String :=
+  if t.isEmpty then "ok ."
+  else "ok " ++ ";".intercalate ((sortNames (t.map (·.1))).map fun n => s!"{Hex.enc n}:{mapGet 0 t n}")
+
+/-- three iteration orders of the same map -/
+def orders {α : Type} (l : List α) : List (List α) := [l, l.reverse, l.drop (l.length / 2) ++ l.take (l.length / 2)]
+
+def sameAll (rs : List (Except String Bytes)) : String :=
+  match rs with
+  | [] => "bad-args"
+  | .error _ :: _ => "panic"
+  | .ok a :: rest =>
+    if rest.all (fun r => match r with | .ok b => a == b | .error _ => false) then describe a
+    else if rest.any (fun r => match r with | .error _ => true | _ => false) then "panic"
+    else "nondeterministic"
 
 /-- `json <named> <numbered> <name table> <indices> <line>` /
-    `special <matches> <keys> <values>` -/
+    `key <key> <name table> <indices> <line>` – `GetKey(key)` for the JSON keys /
+    `special <matches> <keys> <values>` /
+    `nt regex <SubexpNames>` – `fastregex.createGroupNameTable` /
+    `nt dissect <token names> <skipped flags>` – the `groupNames` of `dissect.CompileEx` /
+    `san <bytes>` – U+FFFD substitution (against Go's own decoder) -/
 def handle : List String → String
   | ["json", n, u, nt, ix, ln] =>
     match parseNT nt, parseInts ix, Hex.dec ln with
     | some order, some indices, some line =>
-      if order.any (fun p => p.2 ≥ big ∨ p.2 ≤ -big) then "unmodelled group-number-overflow"
-      else
-        let named := n == "1"
-        let numbered := u == "1"
-        -- two different iteration orders of the same map
-        match json named numbered order indices line, json named numbered order.reverse indices line with
-        | .ok a, .ok b => if a == b then describe a else "nondeterministic"
-        | _, _ => "panic"
+      sameAll ((orders order).map fun o => json (n == "1") (u == "1") o indices line)
     | _, _, _ => "bad-args"
+  | ["key", k, nt, ix, ln] =>
+    match Hex.dec k, parseNT nt, parseInts ix, Hex.dec ln with
+    | some key, some order, some indices, some line =>
+      match (orders order).mapM fun o => getKeyJson key o indices line with
+      | none => "notjson"
+      | some rs => sameAll rs
+    | _, _, _, _ => "bad-args"
   | ["special", ms, ks, vs] =>
     match decHexList ms, decHexList ks, decHexList vs with
     | some texts, some keys, some vals =>
       if keys.length ≠ vals.length then "bad-args"
-      else
-        let a := buildSpecialKeyJson texts (keys.zip vals)
-        let b := buildSpecialKeyJson texts (keys.zip vals).reverse
-        if a == b then describe a else "nondeterministic"
+      else sameAll ((orders (keys.zip vals)).map fun o => .ok (buildSpecialKeyJson texts o))
     | _, _, _ => "bad-args"
+  | ["nt", "regex", ns] =>
+    match decHexList ns with
+    | some names => showTable (regexNameTable names)
+    | none => "bad-args"
+  | ["nt", "dissect", ns, sk] =>
+    match decHexList ns with
+    | some names =>
+      let skips := if sk = "." then [] else (sk.splitOn ",").map (· == "1")
+      if skips.length ≠ names.length then "bad-args"
+      else match dissectNameTable (names.zip skips) with
+        | .ok t => showTable t
+        | .error _ => "conflict"
+    | none => "bad-args"
+  | ["san", b] =>
+    match Hex.dec b with
+    | some bytes => s!"ok {Hex.enc (sanitize bytes)} u={if validUtf8 bytes then 1 else 0}"
+    | none => "bad-args"
   | _ => "bad-op"
 
 end Rare.Drv.C16
